@@ -95,31 +95,31 @@ type deferred struct {
 }
 
 type FnCtx struct {
-	e        *Engine
-	fn       *ssa.Function
-	c        *FuncContract
-	key      string
-	short    string
-	decls    []string
-	declSet  map[string]bool
-	facts    []string
-	obligs   []*Oblig
-	nfresh   int
-	base     map[string]Term
-	baseSort map[string]string
-	entry    *State
-	modset   map[string][]Term
-	modAll   map[string]bool
-	modEvery bool
-	unsup    []string
-	trusted  map[string]bool
-	params   map[string]CVal
-	inputs   []string
-	counter  map[string]int
-	props    []string
-	callees  map[string]bool
-	derived  map[string]bool
-	assumes  []string
+	e           *Engine
+	fn          *ssa.Function
+	c           *FuncContract
+	key         string
+	short       string
+	decls       []string
+	declSet     map[string]bool
+	facts       []string
+	obligs      []*Oblig
+	nfresh      int
+	base        map[string]Term
+	baseSort    map[string]string
+	entry       *State
+	modset      map[string][]Term
+	modAll      map[string]bool
+	modEvery    bool
+	unsup       []string
+	trusted     map[string]bool
+	params      map[string]CVal
+	inputs      []string
+	counter     map[string]int
+	props       []string
+	callees     map[string]bool
+	derived     map[string]bool
+	assumes     []string
 	inlineDepth int
 	usedGlobals []*ssa.Global
 	nGlobalInv  int
@@ -219,8 +219,8 @@ func fieldArrName(structT types.Type, field string) string {
 }
 func derefArrName(elemT types.Type) string { return "D$" + sanitize(shortType(elemT)) }
 
-func sel(a, i string) string       { return "(select " + a + " " + i + ")" }
-func store(a, i, v string) string  { return "(store " + a + " " + i + " " + v + ")" }
+func sel(a, i string) string      { return "(select " + a + " " + i + ")" }
+func store(a, i, v string) string { return "(store " + a + " " + i + " " + v + ")" }
 func and(xs ...string) string {
 	var ys []string
 	for _, x := range xs {
@@ -245,7 +245,7 @@ func or(xs ...string) string {
 	}
 	return "(or " + strings.Join(xs, " ") + ")"
 }
-func not(x string) string { return "(not " + x + ")" }
+func not(x string) string   { return "(not " + x + ")" }
 func eq(a, b string) string { return "(= " + a + " " + b + ")" }
 
 func (fc *FnCtx) mapArrs(mt *types.Map) (dom, val, ks, vs string) {
@@ -296,19 +296,19 @@ type retInfo struct {
 }
 
 type frame struct {
-	fc     *FnCtx
-	fn     *ssa.Function
-	vals   map[ssa.Value]Val
-	out    map[*ssa.BasicBlock]*State
-	reach  map[*ssa.BasicBlock]string
-	edges  map[[2]int]string
-	top    bool
-	rets   []retInfo
-	loops  map[*ssa.BasicBlock]*loopInfo
-	debug  map[string][]dbgRef
-	defers []*deferred
-	depth  map[*ssa.BasicBlock]int
-	old    *State // state at function entry (for top frame)
+	fc      *FnCtx
+	fn      *ssa.Function
+	vals    map[ssa.Value]Val
+	out     map[*ssa.BasicBlock]*State
+	reach   map[*ssa.BasicBlock]string
+	edges   map[[2]int]string
+	top     bool
+	rets    []retInfo
+	loops   map[*ssa.BasicBlock]*loopInfo
+	debug   map[string][]dbgRef
+	defers  []*deferred
+	depth   map[*ssa.BasicBlock]int
+	old     *State // state at function entry (for top frame)
 	recover bool
 }
 
@@ -651,6 +651,29 @@ func (fr *frame) doReturn(b *ssa.BasicBlock, st *State, vals []Val, pos token.Po
 	}
 	env := fc.contractEnv(fc.c, fr.fn, nil, st, fr.old)
 	env.bindResults(fr.fn, vals, fr)
+	if len(fc.c.Ghostset) > 0 {
+		st = st.clone()
+		env.st = st
+		for _, gs := range fc.c.Ghostset {
+			v, err := env.eval(gs.Val)
+			if err != nil {
+				fc.unsupported("ghostset %s: %v", gs.Src, err)
+				continue
+			}
+			locs, err := env.evalLocs(gs.Loc)
+			if err != nil || len(locs) != 1 {
+				fc.unsupported("ghostset %s: bad location", gs.Src)
+				continue
+			}
+			l := locs[0]
+			if l.ref.Sort == "SCALAR" {
+				st.heap[l.arr] = fc.define(l.arr, v.T)
+				continue
+			}
+			a := fc.heapGet(st, l.arr, l.sort)
+			fc.heapSet(st, l.arr, Term{store(a.S, l.ref.S, v.T.S), a.Sort})
+		}
+	}
 	for _, gi := range fc.e.specs.GlobalInvs {
 		if gi.By != fc.c.Key {
 			continue
